@@ -38,7 +38,83 @@ pub fn emit(sink: &mut Sink, cfg: &str, tgt: &str, src: &str, doc: &[u8], tag: &
     sink.case("pfx", &[cfg, tgt, src, &hexf(doc)], &obs.join(","), &format!("{}:{}:{}:{}", tag, tgt, src, worst), doc.len() > 1);
 }
 
+// ---------------------------------------------------------------- typed targets (no model: the property's predicate only)
+use serde::Deserialize;
+use std::collections::BTreeMap;
+
+#[derive(Deserialize, Debug)]
+#[allow(dead_code)]
+struct Rec { a: i32, #[serde(default)] b: Option<String>, c: Vec<u8> }
+#[derive(Deserialize, Debug)]
+#[allow(dead_code)]
+enum En { U, N(i64), T(i8, bool), S { x: u16 } }
+
+fn typed_outcome(name: &str, src: &str, b: &[u8]) -> String {
+    macro_rules! go { ($t:ty) => {{
+        let r: Result<$t, serde_json::Error> = match src {
+            "str" => serde_json::from_str(std::str::from_utf8(b).unwrap()),
+            "slice" => serde_json::from_slice(b),
+            _ => serde_json::from_reader(Chunked::new(b, vec![2, 5])),
+        };
+        match r { Ok(_) => "T".to_string(), Err(e) => show_err(&e) }
+    }}; }
+    let name = name.to_string(); let src = src.to_string(); let b = b.to_vec();
+    let (b, name2, src2) = (b, name, src);
+    let b = &b[..]; let src = src2.as_str();
+    let f = || -> String { match name2.as_str() {
+        "i128" => go!(i128), "u128" => go!(u128), "i64" => go!(i64), "u8" => go!(u8), "f64" => go!(f64), "bool" => go!(bool), "string" => go!(String), "unit" => go!(()),
+        "opt" => go!(Option<Vec<Option<bool>>>), "pair" => go!((i32, String)), "bytes" => go!(Vec<u8>),
+        "mapi32" => go!(BTreeMap<i32, bool>), "mapu128" => go!(BTreeMap<u128, ()>), "mapi128" => go!(BTreeMap<i128, u8>), "mapbool" => go!(BTreeMap<bool, i8>),
+        "mapf64" => go!(BTreeMap<String, f64>), "mapu64" => go!(BTreeMap<u64, Vec<i8>>), "mapchar" => go!(BTreeMap<char, char>),
+        "rec" => go!(Rec), "enum" => go!(Vec<En>), "ignored-field" => go!(BTreeMap<String, serde::de::IgnoredAny>),
+        _ => "?".into() } };
+    std::panic::catch_unwind(std::panic::AssertUnwindSafe(f)).unwrap_or("PANIC".into())
+}
+
+/// sample documents accepted by each typed target
+fn typed_docs(r: &mut Rng) -> Vec<(&'static str, Vec<u8>)> {
+    let mut v: Vec<(&'static str, String)> = vec![];
+    v.push(("i128", format!("{}", -(r.next() as i128) * (r.next() as i128 >> 1))));
+    v.push(("i128", "-170141183460469231731687303715884105728".into()));
+    v.push(("i128", "-0".into())); v.push(("i128", "0".into()));
+    v.push(("u128", format!("{}", (r.next() as u128) << 40))); v.push(("u128", "340282366920938463463374607431768211455".into()));
+    v.push(("i64", format!("{}", r.next() as i64))); v.push(("u8", format!("{}", r.next() as u8)));
+    v.push(("f64", gen_number_text(r))); v.push(("bool", "true".into())); v.push(("string", String::from_utf8_lossy(&gen_string_text(r)).into_owned())); v.push(("unit", "null".into()));
+    v.push(("opt", "[null, true,false ]".into())); v.push(("opt", "null".into()));
+    v.push(("pair", format!("[{}, {}]", r.next() as i32, String::from_utf8_lossy(&gen_string_text(r)))));
+    v.push(("bytes", "[1,2, 255 ]".into()));
+    v.push(("mapi32", format!("{{\"{}\":true, \"-7\" : false}}", r.next() as i32)));
+    v.push(("mapu128", "{\"340282366920938463463374607431768211455\":null,\"0\":null}".into()));
+    v.push(("mapi128", format!("{{\"-{}\":3}}", r.next())));
+    v.push(("mapbool", "{\"true\":1,\"false\":-1}".into()));
+    v.push(("mapf64", "{\"a\":1.5e3,\"b\":-0.0}".into()));
+    v.push(("mapu64", format!("{{\"{}\":[1,-1]}}", r.next())));
+    v.push(("mapchar", "{\"a\":\"\\u00e9\"}".into()));
+    v.push(("rec", "{\"a\": -5, \"zzz\": [1.5e3, {\"q\": null}, \"x\\\"y\"], \"c\":[0,9]}".into()));
+    v.push(("rec", "[1, \"s\", []]".into()));
+    v.push(("enum", "[\"U\",{\"N\":-3},{\"T\":[1,true]},{\"S\":{\"x\":7}}, {\"S\":[8]}]".into()));
+    v.push(("ignored-field", "{\"k\": -1.5e-3, \"l\": [1e5, 0.1, -0, {\"z\":2E+2}]}".into()));
+    v.into_iter().map(|(n, s)| (n, s.into_bytes())).collect()
+}
+
+pub fn emit_typed(sink: &mut Sink, cfg: &str, name: &str, src: &str, doc: &[u8]) {
+    if src == "str" && std::str::from_utf8(doc).is_err() { return; }
+    if typed_outcome(name, src, doc) != "T" { return; }
+    let mut obs = Vec::with_capacity(doc.len() + 1);
+    let mut worst = "ok";
+    for k in 0..doc.len() {
+        if src == "str" && std::str::from_utf8(&doc[..k]).is_err() { obs.push("-".to_string()); continue; }
+        let o = typed_outcome(name, src, &doc[..k]);
+        let o = if o == "T" { "A".to_string() } else { proj(&o) };
+        if o.starts_with("syntax") || o.starts_with("data") { worst = "non-eof"; }
+        obs.push(o);
+    }
+    obs.push("A".into());
+    sink.case("pfxt", &[cfg, name, src, &hexf(doc)], &obs.join(","), &format!("typed:{}:{}:{}", name, src, worst), doc.len() > 1);
+}
+
 pub fn replay(sink: &mut Sink, toks: &[&str]) {
+    if toks.len() >= 5 && toks[0] == "pfxt" { let cfg = cfg_tag(); emit_typed(sink, &cfg, toks[2], toks[3], &unhex(toks[4])); return; }
     if toks.len() < 5 { return; }
     let cfg = cfg_tag();
     emit(sink, &cfg, toks[2], toks[3], &unhex(toks[4]), "replay");
@@ -68,6 +144,11 @@ pub fn run(sink: &mut Sink, thorough: bool, seed: u64) {
     for d in &docs {
         for tgt in ["value", "ignored"] {
             for src in ["str", "slice", "reader"] { emit(sink, &cfg, tgt, src, d, "doc"); }
+        }
+    }
+    for _ in 0..(if thorough { 40 } else { 6 }) {
+        for (name, d) in typed_docs(&mut r) {
+            for src in ["str", "slice", "reader"] { emit_typed(sink, &cfg, name, src, &d); }
         }
     }
 }
